@@ -181,6 +181,7 @@ class Induct:
         ev = dict(prog.enum_values("ChannelState") or [])
         self.MAPPED = ev.get("ChannelState_Mapped", 1)
         self.UNMAPPED = ev.get("ChannelState_Unmapped", 0)
+        self.with_mapped = True  # writer operations also carry a mapped reader on slot J (M is preserved)
         self.loop_summary = {}   # (fn, head) -> {array prefix: value form}
         self.problems = {}       # (op, tag) -> set of messages
         self.states = {}         # op -> (entry states, return states)
@@ -247,10 +248,13 @@ class Induct:
             return [st]
         st.cons += [_lt(J, v["self->holds.n"])]
         P, C = seed_hold(gh, an, st, J, "j")
+        # while the writer slept the reader may have unmapped / mapped again
+        TP, TC = gh.sym("rpos"), gh.sym("rcycle")
+        st.cons += [("le", L.lscale(TP, -1)), ("le", L.lscale(TC, -1))]
         for hc in H_cases(v, P, C):
             s1 = _with(st, hc)
             if s1 is not None:
-                outs.append(s1)
+                outs += self.reader_variants(s1, v, P, C, TP, TC)
         return outs
 
     def on_backedge(self, f, head, st):
@@ -328,10 +332,15 @@ class Induct:
             st.cons += [("le", L.lscale(J, -1)), _lt(J, n)]
             gh_holder["J"] = J
             P, C = seed_hold(gh, an, st, J, "j")
+            # the reader object that owns slot J: unmapped, or mapped with a target cursor (TC, TP)
+            TP, TC = gh.sym("rpos"), gh.sym("rcycle")
+            st.cons += [("le", L.lscale(TP, -1)), ("le", L.lscale(TC, -1))]
             for hc in H_cases(v, P, C):
                 s1 = _with(st, hc)
-                if s1 is not None:
-                    out.append((s1, {"v": v, "J": J, "P": P, "C": C}))
+                if s1 is None:
+                    continue
+                for s2 in self.reader_variants(s1, v, P, C, TP, TC):
+                    out.append((s2, {"v": v, "J": J, "P": P, "C": C}))
             return an, gh_holder, out
         # reader operations: the calling reader r with id RID, state, target cursor
         RID, RST, TP, TC = gh.sym("rid"), gh.sym("rstate"), gh.sym("rpos"), gh.sym("rcycle")
@@ -381,12 +390,25 @@ class Induct:
                                          "reg": False, "RID": RID, "kind": kind}))
         return an, gh_holder, out
 
+    def reader_variants(self, s1, v, P, C, TP, TC):
+        """M(r) for the reader object that owns slot J is not multiplied into the exploration: the
+        state the operation (or the wait) starts from is remembered in ghost cells, and at every
+        return  M(pre) => M(post)  is decided after the fact (adding M(pre) to the path condition
+        is the same as having assumed it at the start; the writer operations never touch r)."""
+        s0 = s1.copy()
+        for k in G_KEYS:
+            s0.cells["ghost:pre:" + k] = v[k]
+        s0.cells["ghost:pre:P"], s0.cells["ghost:pre:C"] = P, C
+        return [s0]
+
     def run_op(self, op, with_reader, with_ghost=True):
         f = self.prog.func(op)
         self.res.touched(f)
         an, gh_holder, entries = self.entry_states(op, with_reader, with_ghost)
         self._an = an
         rets_all = []
+        if getattr(self, "_only_case", None) is not None:
+            entries = entries[:1]
         for st0, info in entries:
             self._J = info.get("J") if not with_reader else None
             gh_holder["J"] = self._J
@@ -424,12 +446,34 @@ class Induct:
             m = check_H(st, v, info["J"], "an arbitrary registered reader")
             if m:
                 self.problem(op, "inv", "after %s %s: the writer's pending region [head, mapped) overlaps bytes that reader has not consumed, or the reader is placed ahead of the writer" % (op, m))
+                continue
+            if self.with_mapped and "ghost:pre:P" in st.cells:
+                pre = {k: st.cells.get("ghost:pre:" + k) for k in G_KEYS}
+                P0, C0 = st.cells["ghost:pre:P"], st.cells["ghost:pre:C"]
+                kp, kc = hold_keys(info["J"])
+                P, C = st.cells[kp], st.cells[kc]
+                TP, TC = L.lvar("T'pos"), L.lvar("T'cycle")
+                base = st.copy()
+                base.cons += [("le", L.lscale(TP, -1)), ("le", L.lscale(TC, -1))]
+                for mc in M_cases(pre, P0, C0, TP, TC):
+                    s2 = _with(base, mc)
+                    if s2 is None:
+                        continue
+                    if not _some(s2, *M_cases(v, P, C, TP, TC)):
+                        self.problem(op, "inv",
+                                     "%s can run while a reader holds a mapped region and leave that reader's target cursor no longer bounding committed, unconsumed bytes "
+                                     "from its hold (hold lap %s, position %s; writer lap %s, head %s, high %s): the region the reader still holds is being rewritten, or its unmap will place the hold wrongly"
+                                     % (op, L.lshow(C), L.lshow(P), L.lshow(v["self->cycle"]), L.lshow(v["self->head"]), L.lshow(v["self->high"])))
+                        break
         return f
 
     def write_map(self):
         op = "channel_write_map"
-        # first pass collects the summary of the wrap-everybody loop, second pass uses it
+        # first pass collects the summary of the wrap-everybody loop (the loop is reached from the
+        # same-lap entry states), second pass uses it
+        self._only_case = 0
         self.run_op(op, False)
+        self._only_case = None
         # while the writer sleeps other threads may register readers and toggle the accept flag
         own = {"self->head", "self->high", "self->mapped", "self->cycle", "self->holds.n", "self->is_accepting_writes"}
         f = self.writer_op(op, own)
@@ -515,8 +559,11 @@ class Induct:
                     self.res.oblige(RULE, inst, True, "%d entry state(s) satisfying the invariant, %d return state(s), each entails it again" % (ent, rets), f.loc())
 
 
-def rule_induct(prog, res):
+def rule_induct(prog, res, with_mapped=True):
+    """with_mapped: the writer operations are also analysed with a mapped reader on slot J (M(r) is
+    preserved by them) - the half of the induction step that the reader operations rely on"""
     ind = Induct(prog, res)
+    ind.with_mapped = with_mapped
     ind.writer_op("channel_accept_writes", {"self->is_accepting_writes"})
     ind.writer_op("channel_abort_write", {"self->mapped"})
     ind.writer_op("channel_write_unmap", {"self->head"})
@@ -526,5 +573,6 @@ def rule_induct(prog, res):
     ind.report([("channel_accept_writes", "accept flag only"), ("channel_abort_write", "mapped only"),
                 ("channel_write_unmap", "head only"), ("channel_write_map", "writer cursors; holds only by the wrap-everybody loop"),
                 ("channel_read_map", "the calling reader's slot and object"), ("channel_read_unmap", "the calling reader's slot and object")])
+    res.extra.setdefault("induct", {})["mapped_reader_in_writer_operations"] = bool(with_mapped)
     res.extra.setdefault("induct", {})["states"] = {k: {"entry": a, "returns": b} for k, (a, b) in ind.states.items()}
     return ind
